@@ -41,7 +41,9 @@ def run(ctx, module, theorems, variants, nq, nt, level, explanation, gen=None, g
         seeds = [rp.get("variant_seed", 0)]
     else:
         n = ctx.budget(nq, nt)
-        progs = [gen(rng, **(gen_kwargs or {})) for _ in range(n)]
+        kw = dict(gen_kwargs or {})
+        kw.setdefault("numeric", True)   # these checks handle programs as text only: numeric constants are fine
+        progs = [gen(rng, **kw) for _ in range(n)]
         seeds = [rng.randrange(1 << 30) for _ in progs]
     sems = semcheck.spec_batch(drv, progs)
     items = [variants(P, sd) for P, sd in zip(progs, seeds)]
